@@ -213,6 +213,11 @@ func runC20(c *Ctx) {
 		}
 		r.Check(o.OK, "H5", o.Key, o.Site, o.Detail, o.Detail)
 	}
+	// H8: instances share no mutable state through their fields
+	r.Doc("H8", "every channel, map, slice, ticker, breaker and wait group a discipline keeps in a field is created by its constructor or comes from its options (no package-level object shared by all instances)", 30)
+	for _, p := range []*Prog{c.V1, c.V2} {
+		checkOwnResources(c, p, "H8", nil)
+	}
 	// H7 (= E4): the release channel is closed by the scheduler's defers; a Release call is ordered
 	// before that close only by the scheduler having received it - the deferred wait leaves only
 	// when every counter is zero. Otherwise close(feedback) is concurrent with a send.
